@@ -252,7 +252,10 @@ func runC06(c *Ctx) error {
 			switch c.Rng.IntN(4) {
 			case 0:
 			default:
-				s.port = []int{22, 53, 80, 443, 8080, 0, 65535, 65536, 65558, 131094, 70000}[c.Rng.IntN(11)]
+				s.port = []int{22, 53, 80, 443, 8080, 0, 65535}[c.Rng.IntN(7)]
+				if c.Rng.IntN(12) == 0 {
+					s.port = []int{65536, 65558, 131094, 70000}[c.Rng.IntN(4)] // beyond 16 bits: refused by the parser
+				}
 			}
 			switch c.Rng.IntN(10) {
 			case 0, 1, 2:
@@ -280,8 +283,22 @@ func runC06(c *Ctx) error {
 	// ---------- (1) parse + CheckInboundTrafficPolicy ----------
 	c.CoqSetup("Prelude Gen SeqCorr Policy PolicyCorr", "c06_pcase", "c06_pok")
 	var good []*c06Cfg
+	// corner configurations first, whatever the random stream does: no friends at all with a
+	// friends-only service of every scheme; one friend; a "for" list only
+	var corners []*c06Cfg
+	for scheme := 0; scheme < 6; scheme++ {
+		corners = append(corners, &c06Cfg{isolate: scheme%2 == 0, svcs: []c06Svc{{scheme: scheme, port: -1, friends: true}}})
+		corners = append(corners, &c06Cfg{isolate: scheme%2 == 1, svcs: []c06Svc{{scheme: scheme, port: []int{22, 80, 8080}[scheme%3], friends: true}},
+			friends: []struct {
+				name int
+				ip   netip.Addr
+			}{{0, senders[0].id.IP}}})
+	}
 	for i, n := 0, c.Pick(400, 4000); i < n; i++ {
 		g := genCfg()
+		if i < len(corners) {
+			g = corners[i]
+		}
 		st := g.store()
 		st.Router.Address = selfID.Store()
 		var cfg *config.Config
@@ -527,6 +544,20 @@ func runC06(c *Ctx) error {
 			S := senders[si]
 			proto := []int{6, 17}[c.Rng.IntN(2)]
 			sport, dport := 2000+c.Rng.IntN(3), ports[c.Rng.IntN(len(ports))]
+			if gi%4 == 2 {
+				// a flow some service admits (when the configuration has one): the connection gets set up
+			search:
+				for sj, cand := range senders {
+					for _, pr := range []int{6, 17} {
+						for _, dp := range ports {
+							if g.admitsSpec(pr, dp, cand.id.IP) {
+								si, S, proto, dport = sj, cand, pr, dp
+								break search
+							}
+						}
+					}
+				}
+			}
 			usedErr := map[int]bool{}
 			sendIn := func() {
 				pk := c06Pkt{ver: 6, src: S.id.IP, dst: selfID.IP, proto: proto, sport: sport, dport: dport, length: 60}
@@ -601,6 +632,13 @@ func runC06(c *Ctx) error {
 					// isolated router: a local packet, the peer's packet on the same connection, a local packet again
 					op = []int{3, 0, 3}[k]
 				}
+				forceCode := 0
+				if gi%4 == 1 && k < 3 {
+					// the sender's packet, an authentic "unreachable" error ping naming the sender, an authentic ping of
+					// another kind from the sender followed by the sender's packet again
+					op = []int{0, 2, 5}[k]
+					forceCode = 1
+				}
 				switch op {
 				case 6:
 					spoofIn()
@@ -635,6 +673,9 @@ func runC06(c *Ctx) error {
 				case 2:
 					// an authentic error ping from the sender
 					code := []int{1, 3, 4}[c.Rng.IntN(3)]
+					if forceCode != 0 {
+						code = forceCode
+					}
 					if usedErr[code] {
 						continue
 					}
